@@ -18,7 +18,9 @@ CONSTANTS
   Ids,         \* [kind -> set of ids] for kind in {"veh", "req", "st", "bs"}
   Cells,       \* exact cells
   SearchOf,    \* [Cells -> search cells]
-  Export       \* TRUE: print every transition
+  Export,      \* TRUE: print every transition
+  FixReAdd     \* TRUE: the tree with the repair of finding F19 (an id in use that is added again is REPLACED: its old entries
+               \* leave the indexes; a station / base in use is not accepted at another location).  FALSE: the tree before it
 
 Kinds == {"veh", "req", "st", "bs"}
 Movable == {"veh", "req"}          \* modify_station_safe / modify_base_safe reject a changed location
@@ -49,13 +51,18 @@ Add(k, x, c) ==
   /\ srch' = [srch EXCEPT ![k] = AddColl(@, SearchOf[c], x)]
   /\ last' = [op |-> "add", k |-> k, id |-> x, c |-> c]
 
-(* add_<kind>_safe of an id that is present, at the cell it stands on (a rider who submits the same request again, an entity
-   loaded twice): whether the code replaces the entity or refuses, the three maps are what they were.  Re-adding at ANOTHER
-   cell is not modelled: ids are taken to be unique among the live entities of different positions. *)
-ReAdd(k, x) ==
+(* add_<kind>_safe of an id that is PRESENT (a rider who submits a request again - from the same place or from another one -, an
+   entity loaded twice).  What the code did before the repair of F19: the entity is replaced and its new cell entered in both
+   indexes, the entries of the old cell stay.  After it: the old entries are taken out first (vehicles, requests); a station or
+   base in use is not accepted at another location (they never move - as modify_<kind>_safe refuses it) *)
+ReAdd(k, x, c) ==
   /\ x \in DOMAIN ent[k]
-  /\ UNCHANGED <<ent, loc, srch>>
-  /\ last' = [op |-> "add", k |-> k, id |-> x, c |-> ent[k][x]]
+  /\ last' = [op |-> "add", k |-> k, id |-> x, c |-> c]
+  /\ LET old == ent[k][x] IN
+     IF FixReAdd /\ k \notin Movable /\ c # old THEN UNCHANGED <<ent, loc, srch>>
+     ELSE /\ ent' = [ent EXCEPT ![k][x] = c]
+          /\ loc' = [loc EXCEPT ![k] = AddColl(IF FixReAdd THEN RemColl(@, old, x) ELSE @, c, x)]
+          /\ srch' = [srch EXCEPT ![k] = AddColl(IF FixReAdd THEN RemColl(@, SearchOf[old], x) ELSE @, SearchOf[c], x)]
 
 (* remove_<kind>_safe *)
 Remove(k, x) ==
@@ -80,9 +87,8 @@ Modify(k, x, c) ==
 
 Next ==
   \E k \in Kinds : \E x \in Ids[k] :
-     \/ \E c \in Cells : Add(k, x, c) \/ Modify(k, x, c)
+     \/ \E c \in Cells : Add(k, x, c) \/ Modify(k, x, c) \/ ReAdd(k, x, c)
      \/ Remove(k, x)
-     \/ ReAdd(k, x)
 
 Spec == Init /\ [][Next]_vars
 
